@@ -53,5 +53,3 @@ NOT_APPLICABLE.update({
            "of a binary that cannot be built offline unmodified; function contracts reach only fragments, which are "
            "decided under C03/C11/C13/C14.",
 })
-for _p in ["C11", "C16"]:
-    NOT_APPLICABLE.setdefault(_p, "check not built yet (work in progress; see DESIGN.md for the plan)")
